@@ -368,6 +368,24 @@ class Gen:
             infix, post = build(need)
             self.add("st", "scan m=stack prog=%s text=%s buf=61*10" % (post, hx("rule r { condition: %s > 0 }" % infix)))
 
+    def fiber_reuse(self):
+        # a regexp whose nested counted repeats keep far more than RE_MAX_FIBERS fibers alive on the hostile buffer;
+        # the SAME scanner scans benign data before and after it
+        if self.explicit:
+            return          # with the variant's tiny fiber limit ordinary regexps already exceed it
+        L = self.c["RE_MAX_FIBERS"]
+        n = 2
+        while n * n < 6 * L:
+            n += 1
+        n = min(n, 120)
+        rules = ('rule h { strings: $a = /head([ab]{1,%d}){1,%d}Q/ condition: $a }\n'
+                 'rule s { strings: $b = /SN[0-9]{3,6}x/ condition: $b }\n'
+                 'rule j { strings: $c = { 41 42 [1-3] ( 43 | 44 ) 45 } condition: $c }') % (n, n)
+        benign = "%s+%s" % (b"..SN12345x..ABzzCE..head".hex(), b"ab".hex() + "*3")
+        hostile = "%s+%s*%d" % (b"head".hex(), b"ab".hex(), 4 * n)
+        for seq in ("1,2,1,1", "2,1", "1,2,2,1", "1,1"):
+            self.add("fr", "scanseq m=fibers need1=1 need2=%d seq=%s text=%s buf=%s buf2=%s%s" % (10 * L + 7, seq, hx(rules), benign, hostile, self.L("RE_MAX_FIBERS")))
+
     def set_timeout(self):
         if self.explicit:
             return
@@ -474,7 +492,7 @@ class Gen:
 
     def all(self):
         self.ml(); self.fib(); self.regex(); self.loops(); self.idents(); self.intlits(); self.includes()
-        self.strings_per_rule(); self.stack(); self.set_timeout(); self.loop_stack(); self.matches()
+        self.strings_per_rule(); self.stack(); self.set_timeout(); self.loop_stack(); self.fiber_reuse(); self.matches()
         return self.cases
 
 
